@@ -89,3 +89,15 @@ def mixed_position_equal_tier(f, **kw):
         return False
     first = diff[0]
     return any(a["t"][i] == b["t"][i] and i < first for i in range(lo, hi))
+
+
+def incomparable_assertion(f, **kw):
+    """D3: the min-delay closures (ensure_no_dataflow_cycles / cache_triggering_ancestors) keep ONE
+    minimal delay per simulator pair; when two paths between a pair have pointwise-incomparable
+    delays (a path that leaves and re-enters a group vs. a direct path) TieredInterval.__lt__
+    raises AssertionError '... are incomparable' instead of the scenario being judged."""
+    row = f.extra.get("row") if f.extra else None
+    if row is not None:
+        return row.get("out") == "other" and "AssertionError" in row.get("msg", "") and "are incomparable" in row.get("msg", "")
+    out = (f.result or {}).get("outcome") or {}
+    return out.get("r") == "AssertionError" and "are incomparable" in out.get("msg", "")
